@@ -40,6 +40,16 @@ Proof.
 Qed.
 Print Assumptions C20_always_completes.
 
+(* a pool created while keyspace switches are landing -- before it reads the session keyspace, between that read and its
+   registration, and during every catch-up round trip, any number of them -- is registered on exactly the session's keyspace *)
+Theorem C20_new_pool_matches_session : forall (ks0 : Z) (s0 s1 : list Z) (rounds : list (list Z)),
+  fst (fst (create_pool ks0 s0 s1 rounds)) = snd (fst (create_pool ks0 s0 s1 rounds)).
+Proof. intros. unfold create_pool. apply catchup_eq. Qed.
+Print Assumptions C20_new_pool_matches_session.
+
+Example C20_nonvacuous_create : create_pool 1 [] [2] [[3]] = (3, 3, 2) /\ create_pool 1 [] [2] [[3]; [1]; [2]] = (2, 2, 4).
+Proof. vm_compute. split; reflexivity. Qed.
+
 Example C20_nonvacuous :
   let s := krun (kinit [POk; PInvalid; PNoConn; PShut; PConnErr; PSame]) [KStart; KComplete 4; KComplete 0; KComplete 1] in
   calls s = [[(1%nat, 1); (4%nat, 2)]] /\ remaining s = [] /\
